@@ -1124,7 +1124,7 @@ func (c *Conn) isMessageTooLarge(len int) bool {
 
 //go:norace
 func (c *Conn) validFrame(opcode MessageType, fin, res1, res2, res3, expectingFragments bool) error {
-	if res1 && !c.enableCompression {
+	if res1 && (!c.enableCompression || (opcode != TextMessage && opcode != BinaryMessage)) {
 		return ErrReserveBitSet
 	}
 	if res2 || res3 {
